@@ -126,20 +126,20 @@ def _exc(e):
 
 
 def _one(case: Case) -> str:
+    """the(...) is evaluated FIRST and an(...) afterwards, over the SAME variables whose domains are one-shot generators:
+    a the() that raises MultipleSolutionFound leaves an abandoned evaluation behind, and the count seen by the following
+    an() must still be the true number of solutions (C03_sequential_partial: sequential evaluations do not interfere)."""
     from krrood.entity_query_language.failures import NoSolutionFound, MultipleSolutionFound
-    from krrood.entity_query_language.entity import entity, set_of
     from krrood.entity_query_language.quantify_entity import the
     q = case.payload
     try:
-        query, sel, single, _ = G.build_real(q)
-        bag = " ".join(sorted(G.rows_of(query, sel, single)))
+        objs = G.make_objects(q)
+        V = G.make_vars(q, objs, one_shot=True)
     except Exception as e:  # noqa: BLE001
-        bag = _exc(e)
-    # the(...) on a freshly built, identical query
+        return f"{_exc(e)} | {_exc(e)}"
     try:
-        query2, sel2, single2, _ = G.build_real(q)
-        desc = query2._child_
-        t = the(desc)
+        query2, sel2, single2 = G.build_query(q, V, objs)
+        t = the(query2._child_)
         r = t.evaluate()
         row = G.show_row((r,)) if single2 else G.show_row(tuple(r[k] for k in sel2))
         th = "value " + row
@@ -149,6 +149,11 @@ def _one(case: Case) -> str:
         th = "multipleSolutions"
     except Exception as e:  # noqa: BLE001
         th = _exc(e)
+    try:
+        query, sel, single = G.build_query(q, V, objs)
+        bag = " ".join(sorted(G.rows_of(query, sel, single)))
+    except Exception as e:  # noqa: BLE001
+        bag = _exc(e)
     return f"{bag} | {th}"
 
 
